@@ -55,7 +55,17 @@ PLAN = dict(
                 "C08_codegen_correct_linearized. No fragment predicate is left: the 'every Switch has a clause' condition of h_frag is gone as well - the landing point of an Invoke is "
                 "established when the closure is invoked, and the induction proves that the code of every executed statement contains an instruction (an empty Switch emits a label only and "
                 "the RISC-V routine has no epilogue instruction behind `cleanup`); C08_codegen_simulates_empty_switch_example. Non-vacuity on a program outside h_frag: a five-field record "
-                "(two blocks) and a closure capturing four integers, hypotheses by vm_compute, theorem applied, both machines OExit 111106 (C08_codegen_simulates_example_*)",
+                "(two blocks) and a closure capturing four integers, hypotheses by vm_compute, theorem applied, both machines OExit 111106 (C08_codegen_simulates_example_*)"
+                " Round 6 (worker agree3): the three back ends agree AS A THEOREM (Proof/ThreeBackends.v): C08_three_backends_agree - under the union of the guards of "
+                "C06_codegen_simulates, C07_codegen_simulates, C08_codegen_simulates (lin_check_prog, ann_check_prog, entry_int, labels_guard, plain_names, plain_types, imm_guard, "
+                "size_guard, lits_i64, tags_i64, reach_guard_a64, imm_guard_rv, args_i64 args, heap_fits - one predicate: the ISA models place the heap identically, C08_heap_fits_same), "
+                "for x86_compile / a64_compile / rv_compile = Ok of one program and length args = n: every run of the linear machine that does not run out of fuel is reproduced by the "
+                "three ISA runs, same prints and end; hence the three observable results are equal; pairwise C08_rv_agrees_with_x86 / _a64, "
+                "C08_x86_agrees_with_a64 under the guards of two theorems each, C08_three_backends_agree_linearized for outputs of the linearizer (prog_ok; defined runs). Capacity: no "
+                "print / at most 14 variables are part of rv_compile = Ok; the entry bound main_arity <= 14 of the RISC-V theorem is implied by x86_compile = Ok (at most 5 integer "
+                "arguments; AArch64 7): C08_three_compile_arity. Non-vacuity: the chain example inside all guards, compiled by the three models, theorem applied, the linear machine "
+                "and the three ISA models evaluate to OExit 111106 (C08_three_backends_example_*). The stated Definition three_backends_agree (shared fuels, heap-exhaustion "
+                "alternative) stays decided by execution (sem-rv)",
         assumptions=[
             "the RV64 ISA model Sem/RVSem.v follows the RISC-V unprivileged specification and the assembler manual's pseudo-instruction "
             "expansions; it cannot be validated against hardware or an emulator in this environment (no RISC-V tool chain)",
